@@ -53,6 +53,7 @@ Record oracles := mkO {
   o_lex : str -> str -> option (list (list str * str)); (* docutils Lexer(text, lang, "short"); None = LexerError *)
   o_gfm_filter : str -> str;                         (* html_to_nodes.RE_FLOW substitution (gfm mode) *)
   o_nl : str -> str;                                 (* markdown_it normalizeLink (ResolveAnchorIds) *)
+  o_p2d_raw : str -> option str;                     (* sphinx: env.path2doc(env.relfn2path(p)) (no existence check) *)
   o_path2doc : str -> option (option str)            (* sphinx: None no such file; Some None a file that is no
                                                         document; Some (Some d) the document d *)
 }.
@@ -98,6 +99,11 @@ Definition k_field_list := Eval vm_compute in lit "field_list".
 Definition k_fieldlist_name := Eval vm_compute in lit "fieldlist_name".
 Definition k_fieldlist_body := Eval vm_compute in lit "fieldlist_body".
 Definition k_span := Eval vm_compute in lit "span".
+Definition k_thead := Eval vm_compute in lit "thead".
+Definition k_tbody := Eval vm_compute in lit "tbody".
+Definition k_tr := Eval vm_compute in lit "tr".
+Definition k_th := Eval vm_compute in lit "th".
+Definition k_td := Eval vm_compute in lit "td".
 
 (* docutils tag names / attribute names *)
 Definition n_document := Eval vm_compute in lit "document".
@@ -209,7 +215,7 @@ Definition v_project := Eval vm_compute in lit "project".
 Definition v_path_colon := Eval vm_compute in lit "path:".
 Definition v_project_colon := Eval vm_compute in lit "project:".
 Definition v_equation_ := Eval vm_compute in lit "equation-".
-Definition v_uuid_ := Eval vm_compute in lit "uuid-".
+Definition v_uuid_ := Eval vm_compute in lit "amsmath-index-".
 
 (* warning tags (type.subtype) *)
 Definition w_render := Eval vm_compute in lit "myst.render".
@@ -227,7 +233,8 @@ Inductive kind :=
 | KFence | KBlockquote | KBulletList | KOrderedList | KListItem | KHr | KHeading | KLink | KImage
 | KHtmlBlock | KHtmlInline | KTable | KMathInline | KMathInlineDouble | KMathSingle | KMathBlock
 | KMathBlockLabel | KAmsmath | KFootnoteRef | KFootnoteReference | KMystTarget | KMystBlockBreak
-| KMystLineComment | KDl | KDt | KDd | KFieldList | KFieldlistName | KFieldlistBody | KSpan | KOther.
+| KMystLineComment | KDl | KDt | KDd | KFieldList | KFieldlistName | KFieldlistBody | KSpan
+| KThead | KTbody | KTr | KTh | KTd | KOther.
 
 Definition kind_table : list (str * kind) :=
   [(k_paragraph, KParagraph); (k_inline, KInline); (k_text, KText); (k_softbreak, KSoftbreak);
@@ -241,7 +248,7 @@ Definition kind_table : list (str * kind) :=
    (k_myst_target, KMystTarget); (k_myst_block_break, KMystBlockBreak);
    (k_myst_line_comment, KMystLineComment); (k_dl, KDl); (k_dt, KDt); (k_dd, KDd);
    (k_field_list, KFieldList); (k_fieldlist_name, KFieldlistName); (k_fieldlist_body, KFieldlistBody);
-   (k_span, KSpan)].
+   (k_span, KSpan); (k_thead, KThead); (k_tbody, KTbody); (k_tr, KTr); (k_th, KTh); (k_td, KTd)].
 
 Definition kind_of (ty : str) : kind :=
   match assoc ty kind_table with Some k => k | None => KOther end.
@@ -503,7 +510,7 @@ Section Render.
   Definition render_link_url (t : tok) (ks : list rt) : prog :=
     o <- alloc ;
     '(a, msgs) <- copy_attributes t o n_reference link_keys_url link_aliases [] ;
-    let uri := escape_html (href_of t) in
+    let uri := href_of t in
     _ <- set_refuri o n_reference uri ;
     Ctx o n_reference (aset a_refuri [uri] a) msgs (render_children ks) (fun _ => Done).
 
@@ -589,13 +596,13 @@ Section Render.
     else if is_sphinx then
       let destination := o_nlt OR destination in
       let '(path_dest, path_id) := split_hash destination [] in
-      match o_path2doc OR path_dest with
-      | Some (Some docname) =>
+      match o_p2d_raw OR path_dest with
+      | Some docname =>
           o <- alloc ;
           process_wrap_node t ks o n_pending_xref
             ((a_refdomain, [v_doc]) :: (a_reftarget, [docname]) :: (a_reftargetid, [ostr path_id]) :: xref_attrs t ks)
             [v_xref; v_myst] destination
-      | _ =>
+      | None =>
           w <- create_warning w_xref_missing ;
           Append w (render_link_url t ks)
       end
@@ -946,7 +953,7 @@ Section Render.
       | KDl => render_dl t ks
       | KFieldList => render_field_list t ks
       | KSpan => render_span t ks
-      | KDt | KDd | KFieldlistName | KFieldlistBody | KOther => Fail ENotModelled
+      | KDt | KDd | KFieldlistName | KFieldlistBody | KThead | KTbody | KTr | KTh | KTd | KOther => Fail ENotModelled
       end.
 
   Fixpoint build (t : tok) : rt :=
